@@ -110,7 +110,7 @@ def gate2_stage(ctx, rng, scratch, cdir, gconsts, nfiles):
     if not cases:
         return res
     idx = list(range(len(cases)))
-    shards = vlib.shard(idx, vlib.NCPU)
+    shards = vlib.shard(idx, max(vlib.NCPU, (len(idx) + 79) // 80))     # small shards: each coqc stays small
     texts = [G.coq_gate2_cases([cases[i][:5] for i in sh]) for sh in shards]
     ev = vlib.coq_eval_shards(os.path.join(cdir, "gate2"), texts)
     for sh, (rc, o) in zip(shards, ev):
